@@ -185,6 +185,10 @@ type Source struct {
 	OnSubscribe func(idx int, liveOthers int64, ctx context.Context)
 	// PanicInSubscribe makes the subscribe function panic with this value after playing.
 	PanicInSubscribe any
+	// HoldSubscribe, when non-nil, makes the subscribe function of an Async source return only once
+	// this channel is closed or the player goroutine has finished: the caller of Subscribe then comes
+	// back to a subscription whose worker is already far ahead (e.g. parked inside its release).
+	HoldSubscribe <-chan struct{}
 	// PanicInTeardown makes every teardown of this source panic with this value (after its bookkeeping).
 	PanicInTeardown any
 
@@ -289,7 +293,17 @@ func (s *Source) subscribe(ctx context.Context, dest ro.Observer[int]) ro.Teardo
 	sc := s.script(idx)
 	if s.Async {
 		s.wg.Add(1)
+		played := make(chan struct{})
+		if s.HoldSubscribe != nil {
+			defer func() {
+				select {
+				case <-s.HoldSubscribe:
+				case <-played:
+				}
+			}()
+		}
 		go func() {
+			defer close(played)
 			defer s.wg.Done()
 			if s.Start != nil {
 				select {
